@@ -384,7 +384,7 @@ def docs_mechanism(chk, dprog, cfg):
     chk.expect(ok and okm, "R9.4", "generate_docs:mode-switch", b.where(), detail, cfg)
     # strip-once
     # everything generate_docs does per attribute: its closures and the private helpers it (or they) call
-    cl = [p for p in cd.closure_tree(dprog, b.path) if p != b.path]
+    cl = list(cd.closure_tree(dprog, b.path))
     stripped = []
     for p in cl:
         cb = dprog.body(p)
